@@ -10,6 +10,7 @@ import (
 	"encoding/binary"
 	"errors"
 	"fmt"
+	"os"
 	"runtime/debug"
 	"sort"
 	"strings"
@@ -1959,15 +1960,31 @@ func runHistory(cfg histCfg) (*histResult, error) {
 		case roleVoter, roleNonVoting:
 			ok := false
 			readBy := time.Now().Add(24 * time.Second)
+			codes := map[uint64]int{}
+			tries := 0
 			for settled && !ok && time.Now().Before(readBy) {
-				ok = c.doRead(0, i, nh, 1, false, time.Second).code == c.codes["completed"]
+				op := c.doRead(0, i, nh, 1, false, time.Second)
+				ok = op.code == c.codes["completed"]
 				if !ok {
+					codes[op.code]++
 					time.Sleep(20 * time.Millisecond)
+					// proposals keep completing meanwhile: in a shard with
+					// Config.Quiesce an idle leader goes quiet after a while and a
+					// restarted non-voting replica that has not heard from it yet
+					// never would (it cannot wake the shard by itself)
+					if tries++; tries%5 == 0 {
+						c.writeSome(1, -1, time.Second)
+					}
 				}
 			}
 			if !ok && settled {
 				settled = false
-				c.violation("replica %d of the final membership completed no linearizable read within 24 s after the network healed", i+1)
+				lid, term, known, _ := nh.GetLeaderID(shardID)
+				have, _ := c.smCount(i)
+				lh := c.leaderHost()
+				lc, _ := c.smCount(lh)
+				c.violation("replica %d of the final membership completed no linearizable read within 24 s after the network healed (its host sees leader %d term %d known=%v, the host that leads is %d; it has applied %d updates, the leader %d; results of its reads by code %v)",
+					i+1, lid, term, known, lh+1, have, lc, codes)
 			}
 			members[uint64(i+1)] = true
 		case roleRemoved:
@@ -2181,4 +2198,45 @@ func demoExportOnJoiner() {
 		time.Sleep(20 * time.Millisecond)
 	}
 	fmt.Println("no panic")
+}
+
+// demoQuiescedNonVoting: in a shard with Config.Quiesce a non-voting replica whose
+// host restarts while the shard is quiet is not contacted by the (quiesced) leader
+// and, knowing no leader, cannot wake the shard itself: it stays behind, and its
+// reads are dropped, until a proposal on a voter wakes the shard.
+// Run: c01 demo-quiesced-nonvoting
+func demoQuiescedNonVoting() {
+	cfg := histCfg{name: "demoq", seed: 1, keys: 2, voters: 3, nonVoting: true, quiesce: true, checkQuorum: true, snapEvery: 0}
+	c, err := startCluster(cfg)
+	if err != nil {
+		panic(err)
+	}
+	c.writeSome(10, -1, 5*time.Second)
+	nv := c.get(3)
+	nv.Close()
+	c.set(3, nil)
+	c.writeSome(5, -1, 5*time.Second)
+	time.Sleep(1500 * time.Millisecond) // the shard goes quiet (10 election time-outs)
+	fmt.Println("shard quiet, replicas that entered quiesce:", atomic.LoadInt64(&quiesceEntered))
+	nh, err := dragonboat.NewNodeHost(c.nhcs[3])
+	if err != nil {
+		panic(err)
+	}
+	if err := c.startReplica(nh, nil, false, c.raftConfig(4, true)); err != nil {
+		panic(err)
+	}
+	c.set(3, nh)
+	for k := 0; k < 5; k++ {
+		time.Sleep(time.Second)
+		lid, _, known, _ := nh.GetLeaderID(shardID)
+		have, _ := c.smCount(3)
+		lc, _ := c.smCount(c.leaderHostOr(0))
+		fmt.Printf("%d s after the restart: non-voting replica applied %d of %d, knows leader: %v (%d)\n", k+1, have, lc, known, lid)
+	}
+	c.writeSome(1, -1, 5*time.Second)
+	time.Sleep(500 * time.Millisecond)
+	have, _ := c.smCount(3)
+	lc, _ := c.smCount(c.leaderHostOr(0))
+	fmt.Printf("after one more proposal on a voter: non-voting replica applied %d of %d\n", have, lc)
+	os.Exit(0)
 }
